@@ -61,6 +61,9 @@ class _Widths(dict):
 
 
 WIDTH = _Widths(rsx.WIDTH)
+# signed integer types: values are Lean `Int`s; only a cast from an unsigned value (two's-complement
+# reinterpretation of the low bits) and comparisons are in the translated language
+SIGNED = _Widths({'i8': 8, 'i16': 16, 'i32': 32, 'i64': 64, 'isize': 64, 'i128': 128})
 
 REL = 'src/utils/stats.rs'
 CODES_REL = 'src/dispatch/codes.rs'
@@ -785,6 +788,9 @@ class Fn:
             to = e[2]
             if to == '_':
                 to = expect
+            if to in SIGNED and ty in WIDTH:
+                k = SIGNED[to]
+                return ('((((%s + 2 ^ %d) %% 2 ^ %d : Nat) : Int) - 2 ^ %d)' % (par((t, p), P_ADD), k - 1, k, k - 1), P_ATOM, to)
             if to not in WIDTH:
                 self.fail('cast `%s`: cannot tell the target type' % show(e))
             if ty == 'lit':
@@ -838,6 +844,9 @@ class Fn:
         ty = self.unify(a[2], b[2])
         if ty == 'lit' and expect in WIDTH:
             ty = expect
+        if ty in SIGNED and op in ('==', '!=', '<', '<=', '>', '>='):
+            lo = {'==': '=', '!=': '≠', '<': '<', '<=': '≤', '>': '>', '>=': '≥'}[op]
+            return ('%s %s %s' % (par(a, P_CMP + 1), lo, par(b, P_CMP + 1)), P_CMP, 'prop')
         if ty is None or (ty not in WIDTH):
             self.fail('`%s`: operands of types %r and %r' % (show(e), a[2], b[2]))
         if op in ('==', '!=', '<', '<=', '>', '>='):
